@@ -109,10 +109,35 @@ def _run_workers(mode, jobs):
 
 
 # ---------------------------------------------------------------- scenarios
+# regression cases: the minimised witnesses of the findings (fixed ones must now pass like any other input)
+CORPUS = [
+    {"name": "fixed:C16-nonfinite-float-nested", "source": "local", "target": "py", "tm": "type_map", "sn": "schema",
+     "sdl": "scalar J\n\ntype Query {\n  f(a: J = [1e999], b: J = {k: [-1e999, 1.5]}, c: J = 1e999): Int\n}\n"
+            "\ninput I {\n  x: J = [[1e400]]\n}\n"},
+    {"name": "fixed:C16-introspection-lossy", "source": "remote", "target": "py", "tm": "type_map", "sn": "schema",
+     "sdl": '"""the schema"""\nschema {\n  query: Query\n}\n\ndirective @tag("why" name: String = "x" '
+            '@deprecated(reason: "gone")) repeatable on FIELD_DEFINITION | OBJECT\n\n"dt" scalar DateTime '
+            '@specifiedBy(url: "https://example.com/dt")\n\ninput In {\n  "keep" a: Int\n  old: Int = 1 @deprecated(reason: "r")\n}\n\n'
+            '"root" type Query {\n  "field" f("arg" old: Int @deprecated(reason: "r"), new: In): DateTime\n}\n'
+            '\nenum E {\n  "val" A\n  B @deprecated\n}\n'},
+    {"name": "fixed:C16-introspection-lossy/sdl-target", "source": "remote", "target": "graphql", "tm": "type_map",
+     "sn": "schema",
+     "sdl": 'directive @tag repeatable on FIELD_DEFINITION\n\n"dt" scalar DateTime @specifiedBy(url: "https://example.com/dt")\n\n'
+            'type Query {\n  f(old: Int @deprecated(reason: "r"), new: Int): DateTime\n}\n'},
+    {"name": "open:C16-typemap-name-shadows-import", "source": "local", "target": "py", "tm": "cast", "sn": "schema",
+     "sdl": "type Query {\n  f: Query\n}\n"},
+]
+
+
 def make_scenarios(ctx, n):
     rng = ctx.rng
     scen = []
-    for idx in range(n):
+    for idx, c in enumerate(CORPUS):
+        sc = {"idx": idx, "seed": -1 - idx, "source": c["source"], "target": c["target"], "layout": "file", "classes": [],
+              "plain": False, "nonprintable": False, "nonfinite": None, "tm": c["tm"], "sn": c["sn"], "sdl": c["sdl"],
+              "parts": [c["sdl"]], "features": {"corpus:" + c["name"]: 1}, "corpus": c["name"]}
+        scen.append(sc)
+    for idx in range(len(CORPUS), n):
         u = rng.random()
         sc = {"idx": idx, "seed": rng.randrange(1 << 30), "source": "local", "target": "py", "layout": "file",
               "classes": [], "plain": False, "nonprintable": False, "nonfinite": None}
@@ -192,6 +217,7 @@ def _run(ctx, tmp, server):
     if [tuple(x) for x in tables[1]] != list(C.STANDARD_SCALARS.items()):
         run.broken("K2 STANDARD_SCALARS", f"model {tables[1]} vs repo {C.STANDARD_SCALARS}")
 
+    import_names = {n for _m, ns in tables[2] for n in ns}
     # ---------------- scenarios ----------------
     n = 1600 if ctx.thorough else 220
     scen = make_scenarios(ctx, n)
@@ -285,7 +311,6 @@ def _run(ctx, tmp, server):
         if m is None:
             continue
         values = list(enc.schema_values(sc["p_loaded"]))
-        sc["nonfinite_nested"] = any(enc.has_nonfinite(v, nested_only=True) for v in values)
         sc["nonfinite_any"] = any(enc.has_nonfinite(v) for v in values)
         sc["in_domain"] = all(enc.in_fidelity_domain(s) for s in enc.schema_strings(sc["p_loaded"]))
         run.dist("model-domain", ("in" if sc["in_domain"] else "nonprintable-unicode") +
@@ -297,9 +322,9 @@ def _run(ctx, tmp, server):
             run.broken("codec", f"strip_std through the model differs from the Python-side filter, seed {sc['seed']}")
         # the hypothesis of the theorem must not be narrower than the property's quantifier
         shadowing = sc["tm"] in SHADOW_TM
-        if not m["wf"] and not sc["nonfinite_any"] and not shadowing:
+        if not m["wf"] and not shadowing:
             run.broken("wf_fschema rejects a valid schema", json.dumps(_replay(sc))[:2500])
-        run.dist("wf_fschema", "true" if m["wf"] else "false(" + ("nonfinite" if sc["nonfinite_any"] else "shadow") + ")")
+        run.dist("wf_fschema", "true" if m["wf"] else "false(shadow)")
         if sc["target"] != "py" or not sc["gen"]["ok"] or not os.path.exists(sc["out"]):
             continue
         text = open(sc["out"], encoding="utf-8").read()
@@ -337,6 +362,15 @@ def _run(ctx, tmp, server):
         run.count()
         if sc.get("unencodable"):
             run.broken("encoder", f"{sc['unencodable']} seed {sc['seed']}")
+            continue
+        # a variable name equal to an import of the generated module may be refused up front
+        # (fixes/C16-reserved-variable-names.diff): a typed rejection before anything is written is not a failure
+        g = sc.get("gen") or {}
+        if (not g.get("ok")) and str(g.get("error", "")).startswith("InvalidConfiguration") \
+                and (sc["tm"] in import_names or sc["sn"] in import_names):
+            if os.path.exists(sc["out"]):
+                run.violation("configuration rejected but a file was written", _replay(sc, gen=g))
+            run.dist("names-rejected-up-front", f"{sc['tm']}/{sc['sn']}")
             continue
         if sc["source"] == "remote" and sc.get("loaded") is None:
             run.violation(f"no introspection request reached the loopback server: {sc['gen'].get('error')}",
@@ -377,10 +411,10 @@ def _run(ctx, tmp, server):
         # -- model prediction vs real outcome (K3 as correspondence)
         predicted_ok = m["eval"] is not None
         if sc["target"] == "py" and ld is not None and sc["in_domain"]:
-            if predicted_ok and ld["ok"] and ld["struct"] != m["eval"] and not sc["nonfinite_any"]:
+            if predicted_ok and ld["ok"] and ld["struct"] != m["eval"]:
                 run.broken("K3 model prediction", f"exec gives a schema different from eval_module's, seed {sc['seed']}: "
                            + str(_first_diff(ld["struct"], m["eval"])))
-            if not predicted_ok and ld["ok"] and not problems and not sc["nonfinite_nested"]:
+            if not predicted_ok and ld["ok"] and not problems:
                 run.broken("K3 model prediction", f"model predicts the module cannot be evaluated but it loads and matches "
                            f"(seed {sc['seed']}, tm={sc['tm']})")
         # -- K1 structural
@@ -403,15 +437,13 @@ def _run(ctx, tmp, server):
                     else:
                         if re_[2] != [sc["tm"], sc["sn"]]:
                             problems.append(f"assignment targets {re_[2]} are not the configured names")
-                        if not sc["nonfinite_any"] and not (sc["tm"] in SHADOW_TM and not predicted_ok):
+                        if not (sc["tm"] in SHADOW_TM and not predicted_ok):
                             if re_[1] != ref:
                                 k1_fail = k1_fail or ("eval_module on the REAL module does not give the source schema: "
                                                       + str(_first_diff(re_[1], ref)))
         # -- classes
         cls = None
-        if sc["nonfinite_nested"]:
-            cls = "C16-nonfinite-float-nested"
-        elif sc["tm"] in SHADOW_TM and not predicted_ok:
+        if sc["tm"] in SHADOW_TM and not predicted_ok:
             cls = "C16-typemap-name-shadows-import"
         if problems:
             what = "; ".join(problems)[:600]
@@ -588,7 +620,8 @@ def _rand_value(rng, depth=0):
     if k == 2:
         return rng.choice([0, 1, -1, 7, -42, 10 ** 12, -(10 ** 30), 2 ** 63, 255])
     if k == 3:
-        return rng.choice([0.0, -0.0, 1.5, 1e300, 1e-7, 5e-324, 1.7976931348623157e308, 1e16, 123456.789, -2.5e-10, 1e22, 1e21])
+        return rng.choice([0.0, -0.0, 1.5, 1e300, 1e-7, 5e-324, 1.7976931348623157e308, 1e16, 123456.789, -2.5e-10, 1e22, 1e21,
+                           float("inf"), float("-inf")])
     if k in (4, 5):
         pool = "ab'\"\\ \n\t\r\x00\x01\x1f\x7f{}[]:,é日😀xN"
         return "".join(rng.choice(pool) for _ in range(rng.randint(0, 6)))
@@ -628,6 +661,11 @@ def _k2_values_(ctx, run, live):
             seen.add(key)
             values.append(v)
     answers = model.batch("C16", [[Sym("repr"), enc.x_val(v)] for v in values], chunk=500)
+    try:
+        from ariadne_codegen.graphql_schema_generators.fields import generate_default_value as gdv
+    except ImportError:           # a rename is not a violation: K1 still covers the route end to end
+        gdv = None
+        run.extra["k2_default_displays"] = "generate_default_value not importable: covered by K1 only"
     bad = 0
     texts = []
     for v, a in zip(values, answers):
@@ -635,7 +673,7 @@ def _k2_values_(ctx, run, live):
         if model.is_error(a):
             run.broken("K2 repr", f"model error {a} on {v}")
             continue
-        m_repr, m_wf, m_pyval, m_back, m_unparse = a
+        m_repr, m_wf, m_pyval, m_back, m_unparse, m_dv, m_tree, m_ev = a
         pv = _py_of_p(v)
         strings = [s for s in _strings_of(v)]
         in_dom = all(enc.in_fidelity_domain(s) for s in strings)
@@ -662,6 +700,28 @@ def _k2_values_(ctx, run, live):
             bad += 1
             run.broken("K2 literal_eval(repr)", f"value {pv!r}: model round trip {m_ok}, python {py_ok}")
         texts.append(r)
+        # defaults as displays: the repo's generate_default_value vs gen_dv, and their values
+        if gdv is not None:
+            src = ast.unparse(gdv(pv))
+            try:
+                tree = enc.strip_syms(enc.canon_expr(ast.parse(src, mode="eval").body))
+            except (enc.CanonError, SyntaxError) as e:
+                tree = f"canonicaliser: {type(e).__name__}: {e}"
+            if tree != m_tree:
+                bad += 1
+                run.broken("K2 gen_dv vs generate_default_value", f"value {pv!r}: model {m_tree} repo {tree} ({src!r})")
+            try:
+                py_back = enc.p_val(eval(src, {"__builtins__": {}}))  # noqa: S307 - text produced two lines above
+            except Exception as e:  # noqa: BLE001
+                py_back = f"{type(e).__name__}"
+            m_val = None if m_ev == "none" else enc.u_val(m_ev[1])
+            if (m_dv == "t") and not (m_val == v and py_back == v):
+                bad += 1
+                run.broken("K2 ev_val(gen_dv)", f"value {pv!r}: dv_val holds, model gives {m_val}, python {py_back}")
+            if (m_val == v) != (py_back == v):
+                bad += 1
+                run.broken("K2 ev_val(gen_dv)", f"value {pv!r}: model round trip {m_val == v}, python {py_back == v}")
+            run.dist("k2-default-displays", "dv_val" if m_dv == "t" else "outside dv_val")
         if bad > 10:
             break
     # malformed / foreign stream: the model may refuse (outside its fragment) but must never disagree when it answers,
